@@ -1194,8 +1194,8 @@ mod real {
         tokio::runtime::Builder::new_current_thread().enable_time().start_paused(true).build().expect("runtime")
     }
 
-    pub fn streaming(preset: &str, seed: u64, ops: usize, lines: &mut Vec<String>) -> bool {
-        let cfg = match preset {
+    pub fn streaming_config(preset: &str, seed: u64) -> Option<StreamingDSTConfig> {
+        Some(match preset {
             "default" => StreamingDSTConfig::new(seed),
             "calm" => StreamingDSTConfig::calm(seed),
             "moderate" => StreamingDSTConfig::moderate(seed),
@@ -1211,11 +1211,22 @@ mod real {
                 c.crash_probability = *r.pick(&[0.0, 0.02, 0.3]);
                 c
             }
-            _ => return false,
-        };
+            _ => return None,
+        })
+    }
+
+    /// `parts` = 1: `run(ops)` as one call; otherwise the run is cut into `parts` consecutive `run` calls and,
+    /// when `stall_ms > 0`, REAL time (the wall clock — the simulation is not told) passes between them
+    pub fn streaming_parts(preset: &str, seed: u64, ops: usize, parts: usize, stall_ms: u64, lines: &mut Vec<String>) -> bool {
+        let cfg = match streaming_config(preset, seed) { Some(c) => c, None => return false };
         paused_runtime().block_on(async {
             let mut h = StreamingDSTHarness::new(cfg).await;
-            h.run(ops).await;
+            for (i, n) in split_ops(ops, parts).into_iter().enumerate() {
+                if i > 0 && stall_ms > 0 {
+                    std::thread::sleep(std::time::Duration::from_millis(stall_ms));
+                }
+                h.run(n).await;
+            }
             h.check_invariants().await;
             let r = h.result();
             for op in &r.history {
@@ -1227,8 +1238,17 @@ mod real {
         true
     }
 
-    pub fn compaction(preset: &str, seed: u64, ops: usize, lines: &mut Vec<String>) -> bool {
-        let cfg = match preset {
+    pub fn streaming(preset: &str, seed: u64, ops: usize, lines: &mut Vec<String>) -> bool {
+        streaming_parts(preset, seed, ops, 1, 0, lines)
+    }
+
+    fn split_ops(ops: usize, parts: usize) -> Vec<usize> {
+        let parts = parts.max(1);
+        (0..parts).map(|i| ops * (i + 1) / parts - ops * i / parts).collect()
+    }
+
+    pub fn compaction_config(preset: &str, seed: u64) -> Option<CompactionDSTConfig> {
+        Some(match preset {
             "default" => CompactionDSTConfig::new(seed),
             "calm" => CompactionDSTConfig::calm(seed),
             "aggressive" => CompactionDSTConfig::aggressive(seed),
@@ -1246,11 +1266,20 @@ mod real {
                 c.compact_probability = *r.pick(&[0.05, 0.3, 0.4]);
                 c
             }
-            _ => return false,
-        };
+            _ => return None,
+        })
+    }
+
+    pub fn compaction_parts(preset: &str, seed: u64, ops: usize, parts: usize, stall_ms: u64, lines: &mut Vec<String>) -> bool {
+        let cfg = match compaction_config(preset, seed) { Some(c) => c, None => return false };
         paused_runtime().block_on(async {
             let mut h = CompactionDSTHarness::new(cfg).await;
-            h.run(ops).await;
+            for (i, n) in split_ops(ops, parts).into_iter().enumerate() {
+                if i > 0 && stall_ms > 0 {
+                    std::thread::sleep(std::time::Duration::from_millis(stall_ms));
+                }
+                h.run(n).await;
+            }
             h.check_invariants().await;
             let r = h.result().clone();
             for op in &r.history {
@@ -1261,6 +1290,38 @@ mod real {
             lines.push(format!("result {:?}", rr));
         });
         true
+    }
+
+    pub fn compaction(preset: &str, seed: u64, ops: usize, lines: &mut Vec<String>) -> bool {
+        compaction_parts(preset, seed, ops, 1, 0, lines)
+    }
+
+    /// how long a wall-clock stall has to be to cross the smallest wall-clock-typed time constant of the
+    /// configuration (comparison at equality, computed from the configuration): just above the tombstone TTL
+    /// of the compaction configuration when that is short, 120 ms otherwise
+    pub fn stall_ms(harness: &str, preset: &str, seed: u64) -> u64 {
+        if harness == "compaction" {
+            if let Some(c) = compaction_config(preset, seed) {
+                let ttl = c.compaction_config.tombstone_ttl.as_millis() as u64;
+                if ttl <= 400 {
+                    return ttl + 60;
+                }
+            }
+        }
+        120
+    }
+
+    /// the store-based harnesses under a wall-clock stall: (trace of the run cut into three `run` calls,
+    /// trace of the same with real time passing between the calls)
+    pub fn stalled_pair(harness: &str, preset: &str, seed: u64, ops: usize) -> Option<(Vec<String>, Vec<String>, u64)> {
+        let ms = stall_ms(harness, preset, seed);
+        let (mut a, mut b) = (Vec::new(), Vec::new());
+        let ok = match harness {
+            "compaction" => compaction_parts(preset, seed, ops, 3, 0, &mut a) && compaction_parts(preset, seed, ops, 3, ms, &mut b),
+            "streaming" => streaming_parts(preset, seed, ops, 3, 0, &mut a) && streaming_parts(preset, seed, ops, 3, ms, &mut b),
+            _ => false,
+        };
+        if ok { Some((a, b, ms)) } else { None }
     }
 
     pub fn pipeline(seed: u64, lines: &mut Vec<String>) -> bool {
@@ -1765,6 +1826,22 @@ fn part_b(a: &Args, out: &mut Out) {
                     out.violation(&format!("C20:trace-depends-on-earlier-run:{}", fam.name),
                         &format!("{} {} seed {}: after another built-in harness (DSTSimulation with FaultConfig::disabled()) ran on the same thread the trace differs from a fresh process; first divergence at trace line {}", fam.name, preset, seed, i + 1),
                         json!({"replay": replay, "line": i + 1, "after_other_harness": p3.lines.get(i), "fresh_process": traces[0].lines.get(i)}));
+                }
+                // the WALL CLOCK as a hidden input, varied on purpose: the same run cut into three `run` calls, once
+                // straight and once with real time passing between the calls (longer than the shortest wall-clock
+                // time constant of the configuration) — the simulation is not told, so nothing may change
+                if matches!(fam.name, "streaming" | "compaction") && (seed == fam_seeds[0] || seed == fam_seeds[1]) {
+                    if let Some((straight, stalled, ms)) = catch_unwind(AssertUnwindSafe(|| real::stalled_pair(fam.name, preset, seed, ops))).unwrap_or(None) {
+                        out.count(&format!("wall-clock-stall:{}:{}", fam.name, preset));
+                        if straight != stalled {
+                            let i = first_diff(&straight, &stalled);
+                            all_same = false;
+                            out.violation(&format!("C20:trace-depends-on-wall-clock:{}", fam.name),
+                                &format!("{} {} seed {} ops {}: letting {} ms of REAL time pass between the `run` calls of one simulation changes its trace; first divergence at trace line {}", fam.name, preset, seed, ops, ms, i + 1),
+                                json!({"replay": replay, "how": format!("run({}/3) three times on one harness, std::thread::sleep({} ms) between the calls, compare with the same without the sleeps", ops, ms),
+                                       "stall_ms": ms, "line": i + 1, "straight": straight.get(i), "with_stall": stalled.get(i)}));
+                        }
+                    }
                 }
                 if p1.lines != traces[0].lines && p1.lines == p2.lines {
                     let i = first_diff(&p1.lines, &traces[0].lines);
